@@ -438,10 +438,10 @@ def family_cases():
                             else:
                                 set_path(d, path, v)
                     elif fam == "ml":
-                        d["ml_processing_time"] = [] if v is None else [
-                            {"job": "jobA", "min": v, "mean": v, "median": v, "max": v, "unit": "ms"},
-                            {"job": "jobB" if d is b else "jobC", "min": 1, "mean": 1, "median": 1, "max": 1, "unit": "ms"},
-                        ]
+                        # the common job sits at different positions of the two lists (the contender has its private job in front)
+                        mine = {"job": "jobA", "min": v, "mean": v, "median": v, "max": v, "unit": "ms"}
+                        other = {"job": "jobB" if d is b else "jobC", "min": 1, "mean": 1, "median": 1, "max": 1, "unit": "ms"}
+                        d["ml_processing_time"] = [] if v is None else ([mine, other] if d is b else [other, mine])
                     else:
                         keys = ["total_transform_processing_times", "total_transform_index_times", "total_transform_search_times", "total_transform_throughput"]
                         target = keys[3] if fam == "transform_throughput" else keys[0]
